@@ -69,6 +69,72 @@ def dispatch_paths(teal: Any, max_len: int) -> List[List[Any]]:
     return out
 
 
+
+def cut_source(lines: List[Any], path: List[Any], blk_of_line: Dict[int, Any]) -> Optional[Tuple[str, Dict[int, int]]]:
+    """The contract rewritten so that every departure from the dispatch path before its last block
+    leads to an `err`: off-path jump targets are replaced by a fresh label `cutE` (an `err` placed
+    behind an unconditional terminator, so nothing falls into it), an off-path fall-through gets
+    an `err` inserted behind the branch.  Returns (source, old line -> new line), or None when
+    there is no place for the `cutE` block."""
+    label_line = {l.args[0]: l.lineno for l in lines if l.op == "label"}
+    by_no = {l.lineno: (k, l) for k, l in enumerate(lines)}
+    replace: Dict[int, str] = {}
+    err_after: Set[int] = set()
+    need_e = False
+    for i in range(len(path) - 1):
+        b, n = path[i], path[i + 1]
+        k, tok = by_no[b.instructions[-1].line]
+        if tok.op not in ("b", "bz", "bnz", "switch", "match"):
+            continue
+        new_args = []
+        for a in tok.args:
+            if blk_of_line.get(label_line.get(a, -1)) is n:
+                new_args.append(a)
+            else:
+                new_args.append("cutE")
+                need_e = True
+        replace[tok.lineno] = " ".join([tok.op] + new_args)
+        if tok.op != "b" and k + 1 < len(lines) and blk_of_line.get(lines[k + 1].lineno) is not n:
+            err_after.add(tok.lineno)
+    e_after: Optional[int] = None
+    if need_e:
+        if lines[-1].op in ("b", "return", "err", "retsub"):
+            e_after = lines[-1].lineno
+        else:
+            for l in lines:
+                if l.op in ("b", "return", "err", "retsub"):
+                    e_after = l.lineno
+                    break
+        if e_after is None:
+            return None
+    out: List[str] = []
+    lmap: Dict[int, int] = {}
+    for l in lines:
+        out.append(replace.get(l.lineno, l.text))
+        lmap[l.lineno] = len(out)
+        if l.lineno in err_after:
+            out.append("err")
+        if e_after == l.lineno:
+            out += ["cutE:", "err"]
+    return "\n".join(out) + "\n", lmap
+
+
+def _cmp_snapshot(ctx: Any) -> Dict[str, Any]:
+    """Context fields compared with the cut program's: everything in thorough; in quick the block's own
+    context, the sub-contexts of positions 0-2 and of offsets -2..2."""
+    from mc import harness  # pylint: disable=import-outside-toplevel
+
+    if TIER != "quick":
+        return harness.full_ctx_snapshot(ctx)
+    s = harness.ctx_snapshot(ctx)
+    for i in range(3):
+        s[f"gtxn{i}"] = harness.ctx_snapshot(ctx.gtxn_context(i))
+        s[f"abs{i}"] = harness.ctx_snapshot(ctx.absolute_context(i))
+    for k in (-2, -1, 1, 2):
+        s[f"rel{k}"] = harness.ctx_snapshot(ctx.relative_context(k))
+    return s
+
+
 def function_snapshot(function: Any) -> Any:
     from mc import harness  # pylint: disable=import-outside-toplevel
 
@@ -197,6 +263,41 @@ def worker(item: Any, res: runner.Result) -> None:  # pylint: disable=too-many-l
         for i, b in fmain.items():
             if id(b) not in in_fn:
                 res.violation("C12.main-block-not-in-function-blocks", item, path=list(pid), block=i)
+        # "exactly that path's executions": the function's contexts equal those tealer computes for the
+        # contract rewritten so that every departure from the path leads to `err` (differential)
+        all_blk = harness.blocks_by_line([b for s_ in teal.subroutines.values() for b in s_.blocks] + list(teal.main.blocks))
+        cut = cut_source(lines, path, all_blk) if (TIER != "quick" or len(path) >= 2) else "skip"
+        if cut == "skip":
+            pass
+        elif cut is None:
+            res.count("cut_program_not_expressible")
+        else:
+            cut_src, lmap = cut
+            try:
+                _, _, fn_cut, _ = harness.analyze(cut_src)
+                cmain = harness.blocks_by_line(fn_cut.main.blocks)
+                csub: Dict[int, Any] = {}
+                for sub in fn_cut.subroutines.values():
+                    csub.update(harness.blocks_by_line(sub.blocks))
+                res.count("cut_programs_analysed")
+                fsubs = [b for sub in fn.subroutines.values() for b in sub.blocks]
+                for is_main, blk in [(True, x) for x in real.values()] + [(False, x) for x in fsubs]:
+                    nl = lmap.get(blk.instructions[0].line)
+                    other = (cmain if is_main else csub).get(nl)
+                    if other is None:
+                        res.violation("C12.function-block-not-in-cut-program", item, path=list(pid), block=blk.idx, cut_program=cut_src)
+                        continue
+                    a_ = _cmp_snapshot(fn.transaction_context(blk))
+                    b_ = _cmp_snapshot(fn_cut.transaction_context(other))
+                    res.count("cut_contexts_compared")
+                    if a_ != b_:
+                        diff = sorted(k_ for k_ in a_ if a_[k_] != b_[k_])
+                        res.violation("C12.function-context-differs-from-cut-program", item, path=list(pid), block=blk.idx, fields=diff,
+                                      function={k_: repr(a_[k_])[:300] for k_ in diff[:3]}, cut={k_: repr(b_[k_])[:300] for k_ in diff[:3]},
+                                      cut_program=cut_src)
+                        break
+            except BaseException as e:  # pylint: disable=broad-except
+                res.violation("C12.cut-program-crash", item, path=list(pid), error=repr(e), cut_program=cut_src)
         # contexts: sound w.r.t. exactly the executions whose main-level walk starts with the path
         main_map = harness.blocks_by_line(list(real.values()))
         sub_map: Dict[int, Any] = {}
